@@ -298,8 +298,10 @@ def _run_property(pid, tier, seed, args):
             import witness
             w = witness.search(pid, o['name'])
             if w is None:
-                raise Undecided('obligation %s no longer verifies, but its proof hints lost their anchors (%s) and no failing input was found: refactoring or violation undecided'
-                                % (o['name'], '; '.join(o['lost_anchors'])))
+                # not an alarm by itself; other failed obligations of this run (e.g. a Kani harness on the unmodified code) still count
+                undecided.append('obligation %s no longer verifies, but its proof hints lost their anchors (%s) and no failing input was found: refactoring or violation undecided'
+                                 % (o['name'], '; '.join(o['lost_anchors'])))
+                continue
             o['witness'] = w
         hit = [k for k in kf if k['obligation'] == o['name']]
         if hit:
